@@ -754,9 +754,22 @@ impl Edges {
 
     /// Returns the [`Edges`] for a version specifier.
     fn from_specifier(specifier: VersionSpecifier) -> Edges {
-        let specifier = release_specifier_to_range(normalize_specifier(specifier));
+        let specifier = normalize_specifier(specifier);
+        let range = if *specifier.operator() == Operator::TildeEqual {
+            // The trailing `0`s of a `~=` version are significant for its upper bound, but the
+            // lower bound is normalized like any other version in the tree.
+            let release = specifier.version().release();
+            let [rest @ .., last, _] = release else {
+                unreachable!("~= must have at least two segments");
+            };
+            let upper = Version::new(rest.iter().chain([&(last + 1)]));
+            let lower = Version::new(strip_trailing_zeros(release));
+            Ranges::from_range_bounds(lower..upper)
+        } else {
+            release_specifier_to_range(specifier)
+        };
         Edges::Version {
-            edges: Edges::from_range(&specifier),
+            edges: Edges::from_range(&range),
         }
     }
 
@@ -1112,7 +1125,8 @@ fn normalize_specifier(specifier: VersionSpecifier) -> VersionSpecifier {
     // which form was added to the global marker interner first.
     //
     // Note that we cannot strip trailing `0`s for star equality, as `==3.0.*` is different from `==3.*`.
-    if !operator.is_star() {
+    // Nor can we strip them for `~=`, as `~=3.5.0` (`>=3.5.0,==3.5.*`) is different from `~=3.5`.
+    if !operator.is_star() && operator != Operator::TildeEqual {
         if let Some(end) = release.iter().rposition(|segment| *segment != 0) {
             if end > 0 {
                 release = &release[..=end];
@@ -1121,6 +1135,15 @@ fn normalize_specifier(specifier: VersionSpecifier) -> VersionSpecifier {
     }
 
     VersionSpecifier::from_version(operator, Version::new(release)).unwrap()
+}
+
+/// Strips any trailing `0`s from a release, keeping at least one segment.
+fn strip_trailing_zeros(release: &[u64]) -> &[u64] {
+    let end = release
+        .iter()
+        .rposition(|segment| *segment != 0)
+        .unwrap_or(0);
+    &release[..=end]
 }
 
 /// Returns the equivalent `python_full_version` specifier for a `python_version` specifier.
@@ -1182,6 +1205,16 @@ fn python_version_to_full_version(specifier: VersionSpecifier) -> Result<Version
         };
 
         Ok(match specifier.operator() {
+            // `python_version ~= 3.7.0` is `python_version >= 3.7.0` and `python_version == 3.7.*`,
+            // which is `python_full_version == 3.7.*` as long as the remaining segments are `0`.
+            Operator::TildeEqual
+                if specifier.version().release()[2..]
+                    .iter()
+                    .all(|segment| *segment == 0) =>
+            {
+                VersionSpecifier::equals_star_version(Version::new([major, minor]))
+            }
+
             // `python_version` cannot have more than two release segments, so equality is impossible.
             Operator::Equal | Operator::ExactEqual | Operator::EqualStar | Operator::TildeEqual => {
                 return Err(NodeId::FALSE)
